@@ -24,6 +24,7 @@ import (
 	fakediscovery "k8s.io/client-go/discovery/fake"
 	"k8s.io/client-go/kubernetes/fake"
 	k8stesting "k8s.io/client-go/testing"
+	"k8s.io/dynamic-resource-allocation/structured"
 
 	kaifake "github.com/NVIDIA/KAI-scheduler/pkg/apis/client/clientset/versioned/fake"
 	schedulingv1alpha2 "github.com/NVIDIA/KAI-scheduler/pkg/apis/scheduling/v1alpha2"
@@ -100,6 +101,24 @@ func waitDRASynced(c cache.Cache, s *Store, warm bool) bool {
 					ok = false
 					break
 				}
+			}
+		}
+		if ok {
+			// the tracker's set of allocated devices is fed by events that are delivered after a claim becomes visible
+			// in the tracker's store: wait until it holds every device the store's claims hold
+			if ad, err := mgr.ResourceClaims().ListAllAllocatedDevices(); err == nil {
+				for _, rc := range s.Claims() {
+					if rc.Status.Allocation == nil {
+						continue
+					}
+					for _, r := range rc.Status.Allocation.Devices.Results {
+						if !ad.Has(structured.MakeDeviceID(r.Driver, r.Pool, r.Device)) {
+							ok = false
+						}
+					}
+				}
+			} else {
+				ok = false
 			}
 		}
 		if ok {
